@@ -302,6 +302,18 @@ pub fn targets(tier: &str) -> Vec<Target> {
             }
         }
     }
+    // positions with more than 128 pseudo-legal moves whose decisive moves are generated last,
+    // and the minor-piece mates (anything that drops, truncates or mis-scores rare moves)
+    for (file, maxd, every) in [(include_str!("mate_family_heavy.txt"), 2u8, 1usize), (include_str!("mate_family_minor.txt"), if thorough { 5 } else { 4 }, if thorough { 1 } else { 4 })] {
+        for (k, line) in file.lines().enumerate() {
+            if k % every != 0 {
+                continue;
+            }
+            if let Some((_, fen)) = line.split_once('\t') {
+                v.push(Target { name: format!("family {fen}"), fen: fen.to_string(), history: vec![], max_depth: maxd });
+            }
+        }
+    }
     // every explorer seed (the rare-feature positions, the bench positions, the long games)
     for (k, sd) in super::seeds::all().into_iter().enumerate() {
         let mirror = sd.name.ends_with("~mirror");
